@@ -359,6 +359,31 @@ func runC03(c *fw.Ctx) {
 			sort.Strings(keys)
 			sampleBatch(c, eng, keys)
 		}
+		// pass 6: a table longer than the batching constants of the engines and of the service (iterators and
+		// the GC pass work in batches of ~100 rows, a response message holds ~1024 chunks): full reads, limits
+		// and range bounds placed around the 100th, 200th, 1024th ... row
+		item++
+		if c.Mine(item) {
+			var long []string
+			for i := 0; i < 1100; i++ {
+				long = append(long, fmt.Sprintf("r%04d", i))
+			}
+			k := func(i int) []byte { return []byte(fmt.Sprintf("r%04d", i)) }
+			readBatch(c, "C03", eng, populate(long, 1), c03Tag, func(emit func(bt.Op)) {
+				emit(bt.Op{Kind: "ReadRows", Table: tblT})
+				for _, lim := range []int64{99, 100, 101, 199, 200, 201, 1023, 1024, 1025, 1099, 1100, 1101} {
+					emit(bt.Op{Kind: "ReadRows", Table: tblT, Limit: lim})
+					emit(bt.Op{Kind: "ReadRows", Table: tblT, HasRowSet: true, Ranges: []bt.Range{{SK: 1, S: k(3)}}, Limit: lim})
+				}
+				for _, b := range []int{98, 99, 100, 101, 199, 200, 201, 1023, 1024, 1025} {
+					for _, sk := range []int{1, 2} {
+						emit(bt.Op{Kind: "ReadRows", Table: tblT, HasRowSet: true, Ranges: []bt.Range{{SK: sk, S: k(b)}}})
+						emit(bt.Op{Kind: "ReadRows", Table: tblT, HasRowSet: true, Ranges: []bt.Range{{EK: sk, E: k(b)}}})
+						emit(bt.Op{Kind: "ReadRows", Table: tblT, HasRowSet: true, Ranges: []bt.Range{{SK: sk, S: k(1)}, {SK: 1, S: k(b), EK: 2, E: k(b + 150)}}, Keys: [][]byte{k(0), k(b + 400)}})
+					}
+				}
+			})
+		}
 	}
 	c.Bound("ranges", len(ranges))
 	c.Bound("limits", limits)
